@@ -45,7 +45,7 @@ func (f *Frame) call(cc *ssa.CallCommon, in ssa.Instruction, resType types.Type)
 		}
 		args = append([]Val{recv}, args...)
 	} else if fn := cc.StaticCallee(); fn != nil {
-		key = fn.String()
+		key = specialisedKey(tr.eng.db, fn.String(), cc)
 		callee = fn
 		if _, ok := cc.Value.(*ssa.MakeClosure); ok {
 			bindings = f.val(cc.Value).Prov.Bindings
@@ -61,6 +61,7 @@ func (f *Frame) call(cc *ssa.CallCommon, in ssa.Instruction, resType types.Type)
 		}
 	}
 	f.atCallAsserts(cc, in, display, args)
+	f.curArgs = args
 	f.setPrivacy(cc, callee, bindings)
 	defer func() { f.privKeep = false; f.privWrites = nil }()
 	// 1. functions defined in the logic
@@ -74,7 +75,14 @@ func (f *Frame) call(cc *ssa.CallCommon, in ssa.Instruction, resType types.Type)
 		} else {
 			tr.note("callee contract: " + key)
 		}
-		return f.applyContract(c, sig, cc.IsInvoke(), args, in, resType, display)
+		res := f.applyContract(c, sig, cc.IsInvoke(), args, in, resType, display)
+		return res
+	}
+	// 2b. func value with alternative specs (`maybe p is A|B`): case split on which spec the value conforms to
+	if !cc.IsInvoke() && cc.StaticCallee() == nil {
+		if fv := f.val(cc.Value); fv.Prov != nil && fv.Prov.Maybe {
+			return f.applyMaybeSpecs(fv, strings.Split(fv.Prov.Spec, "|"), sig, args, in, resType, display)
+		}
 	}
 	// 3. inline in-module bodies and closures
 	if callee != nil && len(callee.Blocks) > 0 && (tr.eng.inModule(callee) || callee.Parent() != nil) {
@@ -151,14 +159,34 @@ func (f *Frame) havocGhosts(names []string, all bool) {
 	}
 }
 
+// havocInvalidatedGhosts resets ghost map entries declared `invalidated_by T` for every argument of the current call
+// that is a *T. Assumption (listed in evidence): a callee without a precise frame writes a T object only if it is
+// handed that object directly.
 func (f *Frame) havocInvalidatedGhosts() {
-	var ns []string
-	for _, g := range f.tr.eng.db.GhostOrder {
-		if f.tr.eng.db.Ghosts[g].InvalidatedBy != "" {
-			ns = append(ns, g)
+	tr := f.tr
+	for _, gn := range tr.eng.db.GhostOrder {
+		g := tr.eng.db.Ghosts[gn]
+		if g.InvalidatedBy == "" {
+			continue
+		}
+		for _, a := range f.curArgs {
+			pt := pointee0(a.Typ)
+			if a.K != VRef || pt == nil || typeKey(pt) != g.InvalidatedBy {
+				continue
+			}
+			srt := ghostSort(g.Sort)
+			cur := tr.stateGet(f.cur.St, "G/"+g.Name, srt)
+			tr.stateSet(f.cur.St, "G/"+g.Name, srt, tr.define("ginv", srt, sSto(cur, a.T, ghostDefault(g.Sort))))
+			tr.note("ghost " + g.Name + " is invalidated only for " + g.InvalidatedBy + " objects handed to a callee directly")
 		}
 	}
-	f.havocGhosts(ns, false)
+}
+
+func pointee0(t types.Type) types.Type {
+	if t == nil {
+		return nil
+	}
+	return pointee(t)
 }
 
 func (f *Frame) inline(callee *ssa.Function, args, bindings []Val, resType types.Type) Val {
@@ -309,7 +337,6 @@ func (f *Frame) applyContract(c *Contract, sig *types.Signature, invoke bool, ar
 		f.assume(t)
 	}
 	old := f.cur.St.clone()
-	f.applyModifies(c, env, in)
 	// results
 	var results []Val
 	var res Val
@@ -341,10 +368,16 @@ func (f *Frame) applyContract(c *Contract, sig *types.Signature, invoke bool, ar
 	} else if len(results) == 1 {
 		res = results[0]
 	}
+	envM := f.bindContractEnv(c, sig, invoke, args, results)
+	f.applyModifies(c, envM, in)
 	env2 := f.bindContractEnv(c, sig, invoke, args, results)
 	env2.old = old
 	env2.cur = f.cur.St
 	for _, cl := range c.Ensures {
+		// postconditions tagged with another property are not needed for this one (dropping assumptions is sound)
+		if tr.prop != "" && cl.Prop != "" && cl.Prop != tr.prop {
+			continue
+		}
 		t, err := env2.boolExpr(cl.E)
 		if err != nil {
 			tr.errorf("%s: ensures of %s: %v", f.fn.Name(), c.Key, err)
@@ -836,10 +869,15 @@ func (f *Frame) convert(v Val, from, to types.Type) Val {
 	case fk == VRef && tk == VRef:
 		return Val{K: VRef, T: v.T, Typ: to}
 	case fk == VSlice && tk == VStr:
-		// string(bytes): uninterpreted but functional in (base,len) is unsound wrt contents; fresh
-		return tr.freshVal(to, "bytes2str")
+		// string(bytes): the content of the byte slice as recorded by bytesStr (assumption: byte slices are not mutated
+		// between the point they were filled and the point they are converted)
+		bs := tr.declareFun("uf/bytesStr", []string{"Int"}, "String")
+		tr.note("byte slice contents are tracked by an uninterpreted function of the slice base (slices not mutated in place)")
+		return Val{K: VStr, T: "(" + bs + " " + v.T + ")", Typ: to}
 	case fk == VStr && tk == VSlice:
 		nv := tr.freshVal(to, "str2bytes")
+		bs := tr.declareFun("uf/bytesStr", []string{"Int"}, "String")
+		tr.fact(sEq("("+bs+" "+nv.T+")", v.T))
 		tr.fact(sEq(nv.Len, "(str.len "+v.T+")"))
 		return nv
 	}
@@ -971,6 +1009,7 @@ func (f *Frame) makeInterface(v Val, from, to types.Type) Val {
 	case VStruct, VSlice, VTuple:
 		c := tr.freshConst("iface", "Int")
 		tr.fact(sAnd("(> "+c+" 0)", sEq("("+dt+" "+c+")", tr.typeID(from))))
+		tr.fact(valEq(tr.unboxed(from, c, ""), v))
 		return Val{K: VIface, T: c, Typ: to, Prov: v.Prov}
 	}
 	box := tr.declareFun("box/"+typeKey(from), []string{kindSort(k)}, "Int")
@@ -980,6 +1019,10 @@ func (f *Frame) makeInterface(v Val, from, to types.Type) Val {
 	if !tr.declared[key] {
 		tr.declared[key] = true
 		tr.fact(sAnd("(> "+t+" 0)", sEq("("+dt+" "+t+")", tr.typeID(from)), sEq("("+unbox+" "+t+")", v.T)))
+		if k == VRef {
+			ir := tr.declareFun("ifaceref", []string{"Int"}, "Int")
+			tr.fact(sEq("("+ir+" "+t+")", v.T))
+		}
 	}
 	return Val{K: VIface, T: t, Typ: to, Prov: v.Prov}
 }
@@ -999,7 +1042,8 @@ func (f *Frame) typeAssert(x *ssa.TypeAssert) {
 		k := kindOf(x.AssertedType)
 		switch k {
 		case VStruct, VSlice, VTuple:
-			res = tr.freshVal(x.AssertedType, "assert")
+			res = tr.unboxed(x.AssertedType, v.T, "")
+			res.ID = v.T
 		default:
 			unbox := tr.declareFun("unbox/"+typeKey(x.AssertedType), []string{"Int"}, kindSort(k))
 			res = Val{K: k, T: "(" + unbox + " " + v.T + ")", Typ: x.AssertedType}
@@ -1245,9 +1289,21 @@ func typeCarriesEffects(t types.Type) bool {
 	return false
 }
 
-func (tr *Tr) invalidatedGhostsInto(ef *effects) {
+func (tr *Tr) invalidatedGhostsInto(ef *effects, cc *ssa.CallCommon) {
 	for _, g := range tr.eng.db.GhostOrder {
-		if tr.eng.db.Ghosts[g].InvalidatedBy != "" {
+		ib := tr.eng.db.Ghosts[g].InvalidatedBy
+		if ib == "" {
+			continue
+		}
+		hit := cc == nil
+		if cc != nil {
+			for _, a := range cc.Args {
+				if pt := pointee0(a.Type()); pt != nil && typeKey(pt) == ib {
+					hit = true
+				}
+			}
+		}
+		if hit {
 			ef.ghosts[g] = true
 		}
 	}
@@ -1269,7 +1325,7 @@ func (tr *Tr) callEffectsInto(cc *ssa.CallCommon, ef *effects, depth int, visite
 			key = k2
 		}
 	} else if fn := cc.StaticCallee(); fn != nil {
-		key = fn.String()
+		key = specialisedKey(tr.eng.db, fn.String(), cc)
 		callee = fn
 	} else {
 		// dynamic: field spec?
@@ -1289,7 +1345,7 @@ func (tr *Tr) callEffectsInto(cc *ssa.CallCommon, ef *effects, depth int, visite
 			// unknown func value: same treatment as in call(): all heaps, ghosts untouched (assumption: callbacks
 			// supplied by the caller do not touch locks/drive ghost state) except store-invalidated ghost maps
 			tr.setAllFor(ef, cc)
-			tr.invalidatedGhostsInto(ef)
+			tr.invalidatedGhostsInto(ef, cc)
 			return
 		}
 	}
@@ -1302,7 +1358,7 @@ func (tr *Tr) callEffectsInto(cc *ssa.CallCommon, ef *effects, depth int, visite
 	if c := tr.eng.db.Contracts[key]; c != nil {
 		if c.ModAll {
 			tr.setAllFor(ef, cc)
-			tr.invalidatedGhostsInto(ef)
+			tr.invalidatedGhostsInto(ef, cc)
 		}
 		for _, m := range c.Modifies {
 			if strings.HasPrefix(m, "F/") || strings.HasPrefix(m, "C/") {
@@ -1324,7 +1380,7 @@ func (tr *Tr) callEffectsInto(cc *ssa.CallCommon, ef *effects, depth int, visite
 			default:
 				// object-level heap targets: resolve statically is not attempted
 				tr.setAllFor(ef, cc)
-				tr.invalidatedGhostsInto(ef)
+				tr.invalidatedGhostsInto(ef, cc)
 			}
 		}
 		return
@@ -1354,7 +1410,7 @@ func (tr *Tr) callEffectsInto(cc *ssa.CallCommon, ef *effects, depth int, visite
 	}
 	if carries {
 		tr.setAllFor(ef, cc)
-		tr.invalidatedGhostsInto(ef)
+		tr.invalidatedGhostsInto(ef, cc)
 	}
 }
 
@@ -1591,4 +1647,104 @@ func (f *Frame) setPrivacy(cc *ssa.CallCommon, callee *ssa.Function, bindings []
 	keep, writes := f.tr.privacyOf(cc)
 	f.privKeep = keep
 	f.privWrites = writes
+}
+
+// unboxed: the value of type t stored in interface value iv, as deterministic functions of iv (so that two
+// assertions of the same interface value agree).
+func (tr *Tr) unboxed(t types.Type, iv string, path string) Val {
+	k := kindOf(t)
+	name := "unbox/" + typeKey(t) + path
+	switch k {
+	case VStruct:
+		st := t.Underlying().(*types.Struct)
+		out := Val{K: VStruct, Typ: t}
+		for i := 0; i < st.NumFields(); i++ {
+			out.Fs = append(out.Fs, tr.unboxed(st.Field(i).Type(), iv, path+"."+st.Field(i).Name()))
+		}
+		return out
+	case VTuple:
+		return tr.freshVal(t, "unbox")
+	case VSlice:
+		fb := tr.declareFun(name+"#base", []string{"Int"}, "Int")
+		fl := tr.declareFun(name+"#len", []string{"Int"}, "Int")
+		l := "(" + fl + " " + iv + ")"
+		key := "unboxlen:" + l
+		if !tr.declared[key] && !strings.Contains(l, "!q") {
+			tr.declared[key] = true
+			tr.fact("(>= " + l + " 0)")
+		}
+		return Val{K: VSlice, T: "(" + fb + " " + iv + ")", Len: l, Typ: t}
+	}
+	fn := tr.declareFun(name, []string{"Int"}, kindSort(k))
+	return Val{K: k, T: "(" + fn + " " + iv + ")", Typ: t}
+}
+
+// applyMaybeSpecs: the callee is a func value that conforms to one of the named specs, or to none (then it is an
+// unknown function: any heap may change, ghost maps listed by the first spec are havocked too).
+func (f *Frame) applyMaybeSpecs(fv Val, specs []string, sig *types.Signature, args []Val, in ssa.Instruction, resType types.Type, display string) Val {
+	tr := f.tr
+	start := PP{R: f.cur.R, St: f.cur.St.clone()}
+	var pps []PP
+	var vals []Val
+	var guards []string
+	for _, sn := range specs {
+		S := tr.eng.db.Contracts[sn]
+		if S == nil {
+			tr.errorf("%s: unknown spec %s for func value %s", f.fn.Name(), sn, display)
+			continue
+		}
+		p := tr.declareFun("conf/"+sn, []string{"Int"}, "Bool")
+		g := "(" + p + " " + fv.T + ")"
+		// alternatives are tried in the order written: a value conforming to several specs behaves as the first
+		var prior []string
+		for _, pg := range guards {
+			prior = append(prior, sNot(pg))
+		}
+		guards = append(guards, g)
+		f.cur = PP{R: tr.define("R", "Bool", sAnd(append([]string{start.R, g}, prior...)...)), St: start.St.clone()}
+		tr.note("assumed spec (if the value conforms): " + sn)
+		v := f.applyContract(S, sig, false, args, in, resType, display)
+		pps = append(pps, f.cur)
+		vals = append(vals, v)
+	}
+	// none of the specs
+	var ng []string
+	for _, g := range guards {
+		ng = append(ng, sNot(g))
+	}
+	f.cur = PP{R: tr.define("R", "Bool", sAnd(append([]string{start.R}, ng...)...)), St: start.St.clone()}
+	f.havocHeaps(nil, true, in, "unknown func value "+display)
+	f.havocInvalidatedGhosts()
+	if len(specs) > 0 {
+		if S := tr.eng.db.Contracts[specs[0]]; S != nil {
+			env := f.bindContractEnv(S, sig, false, args, nil)
+			for _, m := range S.Modifies {
+				if strings.HasPrefix(m, "F/") || strings.HasPrefix(m, "C/") {
+					continue
+				}
+				if e, err := ParseExpr(m); err == nil {
+					f.havocLval(e, env)
+				}
+			}
+		}
+	}
+	pps = append(pps, f.cur)
+	vals = append(vals, tr.freshVal(resType, "call/"+display))
+	f.cur = tr.join(pps, "maybe_"+display)
+	return tr.joinVals(pps, vals, "maybe")
+}
+
+// specialisedKey: a spec may be specialised on the concrete type boxed into an interface argument at the call site:
+// `extern io.Copy[1:*archive/tar.Reader](dst, src)` applies when argument 1 is, statically, a *tar.Reader converted to
+// an interface right at the call.
+func specialisedKey(db *SpecDB, key string, cc *ssa.CallCommon) string {
+	for i, a := range cc.Args {
+		if mi, ok := a.(*ssa.MakeInterface); ok {
+			k := fmt.Sprintf("%s[%d:%s]", key, i, typeKey(mi.X.Type()))
+			if db.Contracts[k] != nil {
+				return k
+			}
+		}
+	}
+	return key
 }
